@@ -227,7 +227,7 @@ func VerifJSString(n int) {
 	verifStringCheck(body, q, vBool("tmpl"))
 }
 
-var verifStrUnits = []string{"\\40", "\\4", "\\1", "0", "7", "a", "\\x41", "\\x22", "\\x27", "\\x0a", "\\u0022", "\\u{27}", "\\n", "\\\n", "\\0", "\\00", "'", "\"", "`", "${", "\\x60", "\\377", "8", "\\12", "\\x00", "\\u2028", "\\'", "\\\"", "\\x3C/script>", "\\74/script>", "\\u003c/script>", "\\u{3C}/SCRIPT>", "</script>", "<\\/script>", "\\u{0}", "\\\\"}
+var verifStrUnits = []string{"\\40", "\\4", "\\1", "0", "7", "a", "\\x41", "\\x22", "\\x27", "\\x0a", "\\u0022", "\\u{27}", "\\n", "\\\n", "\\0", "\\00", "'", "\"", "`", "${", "\\x60", "\\377", "8", "\\12", "\\x00", "\\u2028", "\\'", "\\\"", "\\x3C/script>", "\\74/script>", "\\u003c/script>", "\\u{3C}/SCRIPT>", "</script>", "<\\/script>", "\\u{0}", "\\\\", "\\u{5C}", "\\x5C", "\\u005c", "\\134", "n", "\\x24", "\\44", "$", "{", "\\x7B", "\\173"}
 
 // VerifJSStringUnits: string literal whose body is n units from a list of escapes / quotes / digits.
 func VerifJSStringUnits(n int) {
@@ -366,4 +366,19 @@ func VerifJSStringWitness(n int) {
 		q = '"'
 	}
 	verifStringCheck([]byte(body), q, vBool("tmpl"))
+}
+
+var verifTmplUnits = []string{"\\x24", "\\44", "$", "{", "\\x7B", "\\173", "\\u0024", "\\u{7b}", "a", "}", "\\x60", "`", "\\\\", "\\u{5C}"}
+
+// VerifJSStringTemplate: a string literal made of n units (spellings of $ { ` \ and letters) followed by three newline
+// escapes, where a template literal is allowed and shorter: whichever quote is chosen, the value stays (an escaped $ or {
+// must not become a live ${ in a template).
+func VerifJSStringTemplate(n int) {
+	body := make([]byte, 0, 8*n+8)
+	for i := 0; i < n; i++ {
+		body = append(body, verifTmplUnits[vChoice("u"+string(rune('a'+i)), len(verifTmplUnits))]...)
+	}
+	body = append(body, "\\n\\n\\n"...)
+	q := []byte{'"', '\''}[vChoice("q", 2)]
+	verifStringCheck(body, q, true)
 }
